@@ -70,6 +70,22 @@ CLAIMED['C17'] = dict(
          'construction only (no model); a Python bool offered as NUMBER enumeration value is not judged.',
     technique='Lean 4 proof (exactness iff by mutual induction, leaf-listing characterisation, table obligations) + schema/property correspondence with single-defect mutants')
 
+CLAIMED['C04'] = dict(
+    text='Lean 4 theorems: build_complete - a term that is well typed under a concrete typing of its references (WellTyped: every operator, '
+         'function overload, range, set, quantifier with its hygiene conditions, field access and index used according to its signature) is '
+         'accepted by the constructor model, and the tree returned is the term decorated with type sets containing the concrete types (Rel), so '
+         'every reference node\'s type set contains the declared type; predicate_complete - with a boolean root the predicate constructor '
+         'accepts it (every reference group shares its concrete type, refsOk_of_rel); schema_check_complete - under the typing a schema '
+         'induces, the C17 schema check of the result succeeds. wellTypedB is a proved-sound executable check of the hypothesis, evaluated by '
+         'the driver on every generated input under the typing induced by its random schema (evidence: theorem_applies). Partial: one concrete '
+         'type per printed reference, so sibling quantifiers reusing a variable name at two element types are outside the theorem; they are '
+         'covered by the stream only (and were a defect, now fixed).',
+    design_ref='DESIGN.md §6 C04',
+    note='Trusted: Lean kernel and standard axioms; extract_tables.py; the constructor model is tied to the code by the C03/C04/C05 '
+         'correspondence streams; the type-directed generator and the schema generator (cross-checked by wellTypedB); property-level acceptance '
+         '(scoping) is C02\'s subject and is exercised here by generated properties only.',
+    technique='Lean 4 proof (completeness of the constructor model w.r.t. a declarative typing, sound executable hypothesis check) + type-directed generation from random schemas')
+
 CLAIMED['C02'] = dict(
     text='Lean 4 theorems: sanityCheck (the model of HplProperty.sanity_check, threading the tuple of available aliases exactly as the four '
          '_check_* helpers do) accepts exactly the WellScoped scope/pattern pairs (declarative judgement over free references and aliases per '
